@@ -310,12 +310,13 @@ func c05SeqRandom(r *rand.Rand) []c05InPkt {
 // c05RunSeq feeds the packets as one byte stream to a connected BaseClient and returns the reader
 // goroutine's timeline (hand-overs as snapshots taken inside the handler, acknowledgement writes).
 func c05RunSeq(pkts []c05InPkt) (stream []byte, coq []string, desc []string, stuck bool, err error) {
-	s, err := newSession(true, nil)
-	if err != nil {
-		return nil, nil, nil, false, err
-	}
 	for _, p := range pkts {
 		stream = append(stream, p.bytes()...)
+	}
+	s, err := newSession(true, nil)
+	if err != nil {
+		c05F.add("inseq", fmt.Sprintf("session could not be established: %v", err), nil)
+		return stream, nil, nil, false, nil
 	}
 	s.conn.send(stream)
 	s.conn.finish()
@@ -363,6 +364,9 @@ func c05Inseq(cfg *runCfg, r *rand.Rand, cf *casesFile, m *meta, dist map[string
 	var cases []string
 	nInterleaved := 0
 	for _, pkts := range seqs {
+		if c05F.tooMany("inseq") {
+			break
+		}
 		stream, coq, desc, stuck, err := c05RunSeq(pkts)
 		if err != nil {
 			return 0, err
@@ -554,7 +558,7 @@ func c05RetryRun(op *c05Op, cuts []c05Cut) (conns [][][]byte, problem string, er
 	for k, cut := range cuts {
 		rc, err := c05RetryConn(cut)
 		if err != nil {
-			return nil, "", err
+			return conns, fmt.Sprintf("connection %d could not be established: %v", k+1, err), nil
 		}
 		var e error
 		done := make(chan struct{})
@@ -878,7 +882,8 @@ func c05SessionLong(nSubs int, f func(ctx context.Context, cli *mqtt.BaseClient)
 		}
 	})
 	if err != nil {
-		return nil, "", err
+		c05F.add("long", fmt.Sprintf("session could not be established: %v", err), nil)
+		return nil, "error: no session", nil
 	}
 	ctx, cancel := ctxTimeout(20 * time.Second)
 	defer cancel()
